@@ -114,7 +114,8 @@ def balanced(out: str, start: int) -> str:
     raise TLCError('unbalanced tuple in TLC output')
 
 
-_RE_PRINT = re.compile(r'^<<"(VERDICT|INFO|EXPECT)", (.*)>>\s*$', re.M)
+# (TLC wraps long values over several lines: the value runs to the first '>>' that ends a line)
+_RE_PRINT = re.compile(r'^<<"(VERDICT|INFO|EXPECT)", (.*?)>>[ \t]*$', re.M | re.S)
 
 
 def _tla_to_py(s: str) -> Any:
